@@ -6,10 +6,11 @@ use std::collections::{BTreeMap, BTreeSet};
 use std::io::{Cursor, Read, Write};
 use cfmodel::model::*;
 use dukebox::storage::{ClassRepr, Jar, JarEntryEnum, UnnamedMemJar};
-use quill::remapper::{BRemapper, NoSuperClassProvider};
+use quill::remapper::{BRemapper, JarSuperProv, NoSuperClassProvider};
 use quill::tree::mappings::Mappings;
 use quill::tree::names::Namespace;
 use vcore::{json, Ctx, Stats};
+use super::audit::{self, Audit, Model, Questions};
 use super::refs::{self, compare, rename, Comparison};
 use super::remappers::{ByRef, Engine, Spec, Table};
 
@@ -129,9 +130,11 @@ fn supers_of(pres: &[Option<Pre>]) -> BTreeMap<String, Vec<String>> {
 }
 
 /// Builds the remapper the spec describes (for this jar) and hands it to `f`.
-pub fn with_remapper<T>(spec: &Spec, jar: &[u8], pres: &[Option<Pre>], f: impl FnOnce(&dyn BRemapper) -> T) -> T {
-	match spec.engine {
-		Engine::Table { .. } => f(&Table { spec: spec.clone(), supers: supers_of(pres) }),
+/// `Err((key, what))`: the real code that builds the provider of the jar failed (a difference, not a machinery problem:
+/// the jar is made of classes duke reads).
+pub fn with_remapper<T>(spec: &Spec, jar: &[u8], pres: &[Option<Pre>], f: impl FnOnce(&dyn BRemapper, Option<&JarSuperProv>) -> T) -> Result<T, (String, String)> {
+	Ok(match spec.engine {
+		Engine::Table { .. } => f(&Table { spec: spec.clone(), supers: supers_of(pres) }, None),
 		Engine::QuillJarProvider | Engine::QuillNoProvider => {
 			let q: Mappings<2, ()> = mapmodel::to_quill(&spec.to_mset()).unwrap_or_else(|e| crate::fail(&format!("remapper {}: {e:#}", spec.name)));
 			let (a, b) = match (Namespace::new(0), Namespace::new(1)) {
@@ -142,17 +145,25 @@ pub fn with_remapper<T>(spec: &Spec, jar: &[u8], pres: &[Option<Pre>], f: impl F
 				// the provider is built by the real code from the input jar, as feather-build does
 				let prov = match vcore::guard(|| UnnamedMemJar { data: jar.to_vec() }.get_super_classes_provider()) {
 					Ok(Ok(p)) => p,
-					Ok(Err(e)) => crate::fail(&format!("get_super_classes_provider: {e:#}")),
-					Err(p) => crate::fail(&format!("get_super_classes_provider panicked at {}", p.site)),
+					Ok(Err(e)) => return Err(("provider:refused".into(), format!("Jar::get_super_classes_provider refuses a jar of well-formed classes: {e:#}"))),
+					Err(p) => return Err((format!("panic@{}", p.file()), format!("Jar::get_super_classes_provider panicked at {}: {}", p.site, p.msg))),
 				};
-				let r = q.remapper_b(a, b, &prov).unwrap_or_else(|e| crate::fail(&format!("remapper_b: {e:#}")));
-				f(&r)
+				let r = match vcore::guard(|| q.remapper_b(a, b, &prov)) {
+					Ok(Ok(r)) => r,
+					Ok(Err(e)) => return Err(("engine:remapper_b:refused".into(), format!("Mappings::remapper_b refuses the mappings: {e:#}"))),
+					Err(p) => return Err((format!("panic@{}", p.file()), format!("Mappings::remapper_b panicked at {}: {}", p.site, p.msg))),
+				};
+				f(&r, Some(&prov))
 			} else {
-				let r = q.remapper_b(a, b, NoSuperClassProvider::new()).unwrap_or_else(|e| crate::fail(&format!("remapper_b: {e:#}")));
-				f(&r)
+				let r = match vcore::guard(|| q.remapper_b(a, b, NoSuperClassProvider::new())) {
+					Ok(Ok(r)) => r,
+					Ok(Err(e)) => return Err(("engine:remapper_b:refused".into(), format!("Mappings::remapper_b refuses the mappings: {e:#}"))),
+					Err(p) => return Err((format!("panic@{}", p.file()), format!("Mappings::remapper_b panicked at {}: {}", p.site, p.msg))),
+				};
+				f(&r, None)
 			}
 		},
-	}
+	})
 }
 
 /// member references and declarations whose name the remapper changes although the spec has no entry for
@@ -202,8 +213,14 @@ pub struct Prepared {
 	pub jar: Vec<u8>,
 	/// classes duke's reader does not take (left out of the jar; C01's business)
 	pub left_out: u64,
-	/// also remap the result once more (as a `ParsedJar`) with a remapper that knows no name
+	/// also remap the result once more (as a `ParsedJar`), with a remapper that knows no name and with one that
+	/// renames every class of the remapped jar
 	pub second_pass: bool,
+	/// small universes: the remapper is asked the complete question space of its table (every member key of every
+	/// class), not only the questions the classes of the jar put
+	pub audit_full: bool,
+	/// the questions the classes of the jar put to a remapper
+	pub questions: Questions,
 }
 
 pub fn prepare_case(case: Case) -> Prepared {
@@ -234,7 +251,8 @@ pub fn prepare_case(case: Case) -> Prepared {
 		Entry::Class(_) => n.clone().unwrap_or_default(),
 		Entry::Other { name, .. } => name.clone(),
 	}).collect();
-	Prepared { label: case.label, entries, pres, in_names, jar, left_out, second_pass: case.second_pass }
+	let questions = Questions::of_classes(pres.iter().flatten().map(|p| &p.s0));
+	Prepared { label: case.label, entries, pres, in_names, jar, left_out, second_pass: case.second_pass, audit_full: false, questions }
 }
 
 /// Runs one case. Every difference is reported through `ctx.diff`.
@@ -244,8 +262,149 @@ pub fn run_case(ctx: &Ctx, st: &mut Stats, tally: &mut Tally, case: &Prepared, s
 		st.outcome_n("input-class-left-out:duke-reader-does-not-take-it", case.left_out);
 	}
 	vcore::watched(|| replay("(whole case)"), || {
-		with_remapper(spec, &case.jar, &case.pres, |r| judge(ctx, st, tally, case, spec, r, &replay));
+		if spec.failing {
+			let done = with_remapper(spec, &case.jar, &case.pres, |r, _| judge_failing(ctx, st, case, r, &replay));
+			if done.is_err() {
+				crate::fail("a failing remapper is a table remapper");
+			}
+			return;
+		}
+		let done = with_remapper(spec, &case.jar, &case.pres, |r, prov| {
+			if audit_remapper(ctx, st, case, spec, r, prov, &replay) {
+				judge(ctx, st, tally, case, spec, r, &replay)
+			} else {
+				st.eval();
+				st.outcome("remapper:contradicts-itself:jar-not-judged");
+			}
+		});
+		if let Err((key, what)) = done {
+			st.eval();
+			st.outcome("remapper:could-not-be-built");
+			ctx.diff(&key, &what, || replay("(the remapper itself)"));
+		}
 	});
+}
+
+/// `s` cut to at most `n` bytes at a character boundary
+fn cut(s: &str, n: usize) -> &str {
+	let mut n = n.min(s.len());
+	while !s.is_char_boundary(n) {
+		n -= 1;
+	}
+	&s[..n]
+}
+
+/// A refusal is the right answer when the renamed jar cannot exist: a class of the reference renaming cannot be
+/// encoded as a class file (a name or descriptor of more than 65535 bytes of modified UTF-8, ...) or an entry name
+/// does not fit the 16-bit length field of a zip entry.
+fn expected_unencodable(case: &Prepared, r: &dyn BRemapper, expected_names: &[String]) -> Option<String> {
+	if let Some(n) = expected_names.iter().find(|n| n.len() > 65535) {
+		return Some(format!("an entry name of {} bytes", n.len()));
+	}
+	for p in case.pres.iter().flatten() {
+		let Ok(e) = rename(&p.s0, r) else { continue };
+		if let Err(cfmodel::asm::AsmError::Unencodable(why)) = cfmodel::asm::assemble(&e, &cfmodel::asm::Encoding::default()) {
+			return Some(format!("{}: {why}", p.s0.this_class.to_string_lossy()));
+		}
+	}
+	None
+}
+
+/// the remapper of the second pass that changes something: every class of the remapped jar gets a suffix, every
+/// member the remapped classes declare (constructors and initialisers excluded) too
+fn second_spec(s2s: &[Option<SClass>]) -> Spec {
+	let mut s = Spec::new("everything-once-more", Engine::Table { inherit: false });
+	for c in s2s.iter().flatten() {
+		let this = c.this_class.to_string_lossy();
+		s.class(&this, &format!("{this}_2"));
+		for f in &c.fields {
+			s.field(&this, &f.name.to_string_lossy(), &f.desc.to_string_lossy(), &format!("{}_2", f.name.to_string_lossy()));
+		}
+		for m in &c.methods {
+			let n = m.name.to_string_lossy();
+			if !n.starts_with('<') {
+				s.method(&this, &n, &m.desc.to_string_lossy(), &format!("{n}_2"));
+			}
+		}
+	}
+	s
+}
+
+/// Error paths: the jar is remapped once per question the code under test puts to the remapper, with the remapper
+/// failing at exactly that question. A remapper that cannot answer leaves no renamed jar that satisfies the statement:
+/// the error must come back (no panic, no jar in which the unanswered reference is silently kept or invented).
+fn judge_failing(ctx: &Ctx, st: &mut Stats, case: &Prepared, r: &dyn BRemapper, replay: &dyn Fn(&str) -> String) {
+	use super::remappers::failing;
+	let mut k = 0u64;
+	loop {
+		failing::arm(Some(k));
+		let result = vcore::guard(|| dukebox::remap::remap(UnnamedMemJar { data: case.jar.clone() }, ByRef(r)));
+		let (asked, hit) = failing::disarm();
+		st.eval();
+		let at = || replay(&format!("(the remapper fails at its question number {k})"));
+		match result {
+			Err(p) => {
+				st.outcome("failing-remapper:panic");
+				ctx.diff(&format!("panic@{}", p.file()), &format!("the remapper fails at question {k}: dukebox::remap::remap panicked at {}: {}", p.site, p.msg), at);
+			},
+			Ok(Err(_)) if hit => st.outcome("failing-remapper:error-comes-back"),
+			Ok(Err(e)) => {
+				st.outcome("failing-remapper:refused-without-a-failure");
+				ctx.diff("remap:refused", &format!("dukebox::remap::remap refuses a jar of well-formed classes although the remapper answered all {asked} questions: {}", cut(&format!("{e:#}"), 300)), at);
+			},
+			Ok(Ok(_)) if hit => {
+				st.outcome("failing-remapper:error-swallowed");
+				ctx.diff("remap:error-of-the-remapper-swallowed", &format!("the remapper failed at question {k} of {asked} and dukebox::remap::remap returned a jar all the same"), at);
+			},
+			Ok(Ok(_)) => {
+				// the failing question is beyond the last one: every question of this jar has failed once
+				st.outcome_n("failing-remapper:questions-of-completed-jars", asked);
+				return;
+			},
+		}
+		k += 1;
+		if k > 100_000 {
+			crate::fail(&format!("{}: more than 100000 questions", case.label));
+		}
+	}
+}
+
+/// the remapper itself (quill's provided methods, the `remapper_b` engine, the provider built from the jar)
+/// `false`: the provided methods of the remapper contradict its primitive answers (or it panicked): there is no single
+/// "what the remapper answers" to judge dukebox against
+fn audit_remapper(ctx: &Ctx, st: &mut Stats, case: &Prepared, spec: &Spec, r: &dyn BRemapper, prov: Option<&JarSuperProv>, replay: &dyn Fn(&str) -> String) -> bool {
+	let mut a = Audit { ctx, replay, asked: 0, inconsistent: 0 };
+	let full;
+	let q = if case.audit_full {
+		let mut q = Questions::of_classes(case.pres.iter().flatten().map(|p| &p.s0));
+		q.add_table_space(spec);
+		full = q;
+		&full
+	} else {
+		&case.questions
+	};
+	let guarded = vcore::guard(|| {
+		audit::provided(&mut a, st, r, q);
+		if audit::is_quill(spec.engine) {
+			let supers = if spec.engine == Engine::QuillJarProvider { supers_of(&case.pres) } else { BTreeMap::new() };
+			audit::engine(&mut a, st, r, q, &Model { spec, supers });
+		}
+		if let Some(prov) = prov {
+			let stated: Vec<(JS, Vec<JS>)> = case.pres.iter().flatten().map(|p| (p.s0.this_class.clone(), p.s0.super_class.iter().chain(&p.s0.interfaces).cloned().collect())).collect();
+			audit::provider(&mut a, st, prov, &stated);
+		}
+		(a.asked, a.inconsistent)
+	});
+	match guarded {
+		Ok((n, inconsistent)) => {
+			st.outcome_n("audit:questions-put-to-the-remapper", n);
+			inconsistent == 0
+		},
+		Err(p) => {
+			ctx.diff(&format!("panic@{}", p.file()), &format!("the remapper panicked at {}: {}", p.site, p.msg), || replay("(the remapper itself)"));
+			false
+		},
+	}
 }
 
 #[allow(clippy::too_many_arguments)]
@@ -282,9 +441,14 @@ fn judge(ctx: &Ctx, st: &mut Stats, tally: &mut Tally, case: &Prepared, spec: &S
 			return;
 		},
 		Ok(Err(e)) => {
+			if let Some(why) = expected_unencodable(case, r, &expected_names) {
+				st.outcome("remap:refused-because-the-renamed-jar-cannot-be-encoded");
+				let _ = why;
+				return;
+			}
 			st.outcome("remap:refused");
 			let m = format!("{e:#}");
-			ctx.diff("remap:refused", &format!("dukebox::remap::remap refuses a jar of well-formed classes: {}", &m[..m.len().min(300)]), || replay("(whole case)"));
+			ctx.diff("remap:refused", &format!("dukebox::remap::remap refuses a jar of well-formed classes: {}", cut(&m, 300)), || replay("(whole case)"));
 			return;
 		},
 		Ok(Ok(j)) => j,
@@ -339,6 +503,55 @@ fn judge(ctx: &Ctx, st: &mut Stats, tally: &mut Tally, case: &Prepared, spec: &S
 		}
 	}
 
+	// ... and with a remapper that renames every class and member of the remapped jar once more: the trees held by the
+	// `ParsedJar` are the input, their entry names the keys
+	if case.second_pass && s2s.iter().all(|s| s.as_ref().is_none_or(|c| c.this_class.0.iter().all(|u| !(0xD800..0xE000).contains(u)))) {
+		let spec2 = second_spec(&s2s);
+		let r2 = Table { spec: spec2, supers: BTreeMap::new() };
+		let again = vcore::guard(|| dukebox::remap::remap(dukebox::remap::remap(UnnamedMemJar { data: jar.to_vec() }, ByRef(r))?, ByRef(&r2)));
+		st.eval();
+		match again {
+			Err(p) => ctx.diff(&format!("panic@{}", p.file()), &format!("remapping the remapped jar panicked at {}: {}", p.site, p.msg), || replay("(whole case)")),
+			Ok(Err(e)) => ctx.diff("remap:second-pass:refused", &format!("the remapped jar cannot be remapped again: {e:#}"), || replay("(whole case)")),
+			Ok(Ok(j2)) => {
+				st.outcome("remap:second-pass-that-renames-everything");
+				for (i, ((name1, _), (name2, e))) in parsed.entries.iter().zip(&j2.entries).enumerate() {
+					let Some(Some(s2)) = s2s.get(i) else {
+						if name1 != name2 {
+							ctx.diff("remap:second-pass:entry-names-changed", &format!("the entry {name1:?}, which is no class, became {name2:?}"), || replay("(whole case)"));
+						}
+						continue;
+					};
+					let want = match rename(s2, &r2) {
+						Ok(w) => w,
+						Err(e) => crate::fail(&format!("second pass: {e}")),
+					};
+					let want_name = format!("{}.class", want.this_class.to_string_lossy());
+					if name2 != &want_name {
+						ctx.diff("remap:second-pass:class-entry-name:wrong", &format!("the entry {name1:?} of the remapped jar must become {want_name:?} and became {name2:?}"), || replay(&in_names[i]));
+					}
+					if let JarEntryEnum::Class(ClassRepr::Parsed { class }) = &e.content {
+						match cfmodel::duke_proj::project(class) {
+							Ok(again) if again == want => st.outcome("class:second-pass-as-expected"),
+							Ok(again) => {
+								for (k, d) in compare(&want, &again, s2, None).diffs {
+									// what the first pass loses (open findings) is lost again; a second report under another key adds nothing
+									if !ctx.is_known(&format!("remap:{k}")) {
+										ctx.diff(&format!("remap:second-pass:{k}"), &format!("(the remapped jar remapped once more) {d}"), || replay(&in_names[i]));
+									}
+								}
+							},
+							Err(e) => ctx.diff("remap:inconsistent-tree", &format!("second pass: {e}"), || replay(&in_names[i])),
+						}
+					}
+				}
+				if parsed.entries.len() != j2.entries.len() {
+					ctx.diff("remap:second-pass:entry-count:changed", &format!("{} entries became {}", parsed.entries.len(), j2.entries.len()), || replay("(whole case)"));
+				}
+			},
+		}
+	}
+
 	// observation 2: the written jar
 	let out_bytes = match vcore::guard(|| parsed.to_mem()) {
 		Err(p) => {
@@ -346,8 +559,12 @@ fn judge(ctx: &Ctx, st: &mut Stats, tally: &mut Tally, case: &Prepared, spec: &S
 			return;
 		},
 		Ok(Err(e)) => {
+			if expected_unencodable(case, r, &expected_names).is_some() {
+				st.outcome("jar:write-refused-because-the-renamed-jar-cannot-be-encoded");
+				return;
+			}
 			let m = format!("{e:#}");
-			ctx.diff("jar:write-refused", &format!("the remapped jar cannot be written: {}", &m[..m.len().min(300)]), || replay("(whole case)"));
+			ctx.diff("jar:write-refused", &format!("the remapped jar cannot be written: {}", cut(&m, 300)), || replay("(whole case)"));
 			return;
 		},
 		Ok(Ok(j)) => j.data,
